@@ -36,8 +36,17 @@ Fact get_eos_head_as_modelled : F.get_eos_head =
   "if input.is_empty() { return Ok(0); } let s: String = input.chars().take(self.limit).collect(); let input_exceeds_limit = s.len() < input.len(); lazy_static!{..}".
 Proof. vm_compute. reflexivity. Qed.
 
-Fact get_eos_loop_and_tail_as_modelled : F.get_eos_loop_and_tail =
-  "for mat in SENTENCE_BREAKER.find_iter(&s) { let mut eos = mat?.end(); if parenthesis_level(&s[..eos])? > 0 { continue; } if eos < s.len() { eos += prohibited_bos(&s[eos..])?; } if ITEMIZE_HEADER.is_match(&s)? { continue; } if eos < s.len() && is_continuous_phrase(&s, eos)? { continue; } if let Some(ck) = checker { if ck.has_non_break_word(input, eos) { continue; } } return Ok(eos as isize); } if input_exceeds_limit { lazy_static!{..} if let Some(mat) = SPACES.find(&s)? { return Ok(-(mat.end() as isize)); } } Ok(-(s.len() as isize))".
+(* the candidate loop of get_eos as its ordered steps (each recognised in its equivalent spellings: comparison from either
+   side, if-let / map_or for the optional checker; an extra, missing or reordered step is an extraction failure), and the
+   provisional negative answers: what Model.Sentence.accept / get_eos implement *)
+Fact get_eos_steps_as_modelled : F.get_eos_steps =
+  [ "veto: parenthesis_level(&s[..eos])? > 0 => continue";
+    "extend: eos < s.len() => eos += prohibited_bos(&s[eos..])?";
+    "veto: ITEMIZE_HEADER.is_match(&s)? => continue";
+    "veto: eos < s.len() && is_continuous_phrase(&s, eos)? => continue";
+    "veto: checker present and has_non_break_word(input, eos) => continue";
+    "accept: return Ok(eos as isize)";
+    "no candidate accepted: input_exceeds_limit and SPACES.find(&s)? = Some(m) => Ok(-(m.end())); otherwise Ok(-(s.len()))" ].
 Proof. vm_compute. reflexivity. Qed.
 
 (* NonBreakChecker::has_non_break_word, feature by feature (recognised by gen/factmods/SentenceFacts.py in every
